@@ -118,6 +118,8 @@ class ParseFlowRoute(Section):
             new_nlri._rules_cache = old_nlri._rules_cache
             new_nlri._packed_stale = True
             route.nlri = new_nlri
+        if not route.nlri.rules:
+            return self.error.set('flow route: no match component')
         error = flow_family_error(route.nlri.afi, route.nlri.rules)
         if error:
             return self.error.set(f'flow route: {error}')
